@@ -201,6 +201,29 @@ CHECKS = {
          'random recursive mixin programs run through model and compiler; every compilation must end within 15 s + 0.5 s/KB of output as a '
          'result or a CompilationError.'),
    note=BASE_NOTE + ' The cost of one step in CPython and of PLY parsing is measured by the wall-clock oracle, not proved.'),
+ 'C14': dict(category='proof',
+   technique='Lean 4 theorems on a hand-written model of p_statement_import (path resolution, LESS / non-LESS decision, recursive parser, splice, error register) + differential correspondence on random file trees',
+   text=('Theorems about Lessm.Imp.load for every file tree: C14_inline / C14_inline_root (within the level limit the unit list of the root equals '
+         'the text with every imported file pasted in place of its statement, transitively, and the register holds exactly the missing files), '
+         'C14_post / C14_post_flat (hence, for EVERY continuation `post` of the compiler, the result of the split tree is `post` of the pasted '
+         'text: rules at that position, variables and mixins visible to the importer), C14_stmt / C14_stmt_any (a non-LESS import stays, as '
+         'written, at its position), C14_missing / C14_missing_root / C14_errs (a missing .less file is registered, errors of imported files are '
+         'never dropped), C14_path_* (extension optional, relative to the importing file, `..` steps, the LESS / non-LESS decision on all '
+         'names), C14_twice. Tie: random programs cut into random trees of files and sub-directories (5 ways of writing the import, repeated '
+         'imports, imports inside rules and @media, non-LESS forms, missing and unparsable files): the model\'s unit list compiled by the real '
+         'compiler, the real compiler on the tree, and an independent Python inliner must agree byte for byte.'),
+   note=BASE_NOTE + ' Everything after the unit list is the parameter `post`; os.path is trusted to agree with the model\'s path functions on the generated names (exercised).'),
+ 'C13': dict(category='proof',
+   technique='Lean 4 non-interference theorems on a model of what compilations share (package table module, table file in the temporary directory) for any interleaving and crash points + footprint check by strace + histories / hash seeds / threads / concurrent processes against fresh-process references',
+   text=('Theorems about Lessm.Pure (any number of processes, any schedule of construct / truncate / write / compile / crash steps, any initial '
+         'content of <tmp>/yacctab.py): C13_pure (every output is run(gen, source, options)), C13_cache (cold, warm, truncated, foreign file: same '
+         'outputs), C13_history (the n-th call of a history returns what it returns alone), under PkgOK (no importable package table module, or '
+         'one with this grammar\'s tables; C13_foreign_pkg_counterexample shows the hypothesis is needed). PARTIAL: that the code shares nothing '
+         'but these two things is not proved but checked on every run: strace of a real history (the table file is only ever opened '
+         'O_WRONLY|O_TRUNC, once per construction, nothing under the temporary directory is read), lesscpy.lessc.yacctab not importable, and every '
+         'call of random histories of valid and failing programs (stream / file, 4 hash seeds, 2-8 threads, 6-16 concurrent processes on one '
+         'temporary directory with the table file absent / warm / cut at many prefixes / foreign / garbage / a directory, some writers killed) '
+         'compared byte for byte with the same call alone in a fresh interpreter.'),
+   note=BASE_NOTE + ' Scheduling of real processes is sampled, not enumerated; the OS file semantics are trusted to be covered by the model\'s step interleavings.'),
 }
-NOT_APPLICABLE = {p: 'check under construction in this round (see DESIGN.md section 10 build order); not claimed yet' for p in
-  ['C13','C14']}
+NOT_APPLICABLE = {}
